@@ -4049,11 +4049,73 @@ func (d *Document) parseAnchorDrawing(decoder *xml.Decoder, startElement xml.Sta
 					return nil, err
 				}
 				anchor.Graphic = graphic
+			case "simplePos":
+				anchor.SimplePosition = &SimplePosition{
+					X: getAttributeValue(t.Attr, "x"),
+					Y: getAttributeValue(t.Attr, "y"),
+				}
+				if err := d.skipElement(decoder, t.Name.Local); err != nil {
+					return nil, err
+				}
+			case "positionH":
+				relativeFrom, align, offset, err := d.parseDrawingPosition(decoder, getAttributeValue(t.Attr, "relativeFrom"), "positionH")
+				if err != nil {
+					return nil, err
+				}
+				anchor.PositionH = &HorizontalPosition{RelativeFrom: relativeFrom, Align: align, PosOffset: offset}
+			case "positionV":
+				relativeFrom, align, offset, err := d.parseDrawingPosition(decoder, getAttributeValue(t.Attr, "relativeFrom"), "positionV")
+				if err != nil {
+					return nil, err
+				}
+				anchor.PositionV = &VerticalPosition{RelativeFrom: relativeFrom, Align: align, PosOffset: offset}
+			case "effectExtent":
+				anchor.EffectExtent = parseEffectExtentAttrs(t.Attr)
+				if err := d.skipElement(decoder, t.Name.Local); err != nil {
+					return nil, err
+				}
+			case "cNvGraphicFramePr":
+				framePr, err := d.parseCNvGraphicFramePr(decoder)
+				if err != nil {
+					return nil, err
+				}
+				anchor.CNvGraphicFramePr = framePr
 			case "wrapNone":
 				anchor.WrapNone = &WrapNone{}
 				if err := d.skipElement(decoder, t.Name.Local); err != nil {
 					return nil, err
 				}
+			case "wrapTight":
+				polygon, err := d.parseWrapPolygonParent(decoder, "wrapTight")
+				if err != nil {
+					return nil, err
+				}
+				anchor.WrapTight = &WrapTight{
+					WrapText:    getAttributeValue(t.Attr, "wrapText"),
+					DistL:       getAttributeValue(t.Attr, "distL"),
+					DistR:       getAttributeValue(t.Attr, "distR"),
+					WrapPolygon: polygon,
+				}
+			case "wrapThrough":
+				polygon, err := d.parseWrapPolygonParent(decoder, "wrapThrough")
+				if err != nil {
+					return nil, err
+				}
+				anchor.WrapThrough = &WrapThrough{
+					WrapText:    getAttributeValue(t.Attr, "wrapText"),
+					DistL:       getAttributeValue(t.Attr, "distL"),
+					DistR:       getAttributeValue(t.Attr, "distR"),
+					WrapPolygon: polygon,
+				}
+			case "wrapTopAndBottom":
+				wrap := &WrapTopAndBottom{
+					DistT: getAttributeValue(t.Attr, "distT"),
+					DistB: getAttributeValue(t.Attr, "distB"),
+				}
+				if err := d.parseWrapTopAndBottomChildren(decoder, wrap); err != nil {
+					return nil, err
+				}
+				anchor.WrapTopAndBottom = wrap
 			case "wrapSquare":
 				wrapSquare := &WrapSquare{}
 				for _, attr := range t.Attr {
@@ -4082,6 +4144,155 @@ func (d *Document) parseAnchorDrawing(decoder *xml.Decoder, startElement xml.Sta
 		case xml.EndElement:
 			if t.Name.Local == "anchor" {
 				return anchor, nil
+			}
+		}
+	}
+}
+
+// parseEffectExtentAttrs 解析效果范围属性
+func parseEffectExtentAttrs(attrs []xml.Attr) *EffectExtent {
+	return &EffectExtent{
+		L: getAttributeValue(attrs, "l"),
+		T: getAttributeValue(attrs, "t"),
+		R: getAttributeValue(attrs, "r"),
+		B: getAttributeValue(attrs, "b"),
+	}
+}
+
+// parseDrawingPosition 解析浮动图片的水平/垂直位置（wp:positionH / wp:positionV）
+func (d *Document) parseDrawingPosition(decoder *xml.Decoder, relativeFrom, elementName string) (string, *PosAlign, *PosOffset, error) {
+	var align *PosAlign
+	var offset *PosOffset
+
+	for {
+		token, err := decoder.Token()
+		if err != nil {
+			return "", nil, nil, WrapError("parse_drawing_position", err)
+		}
+
+		switch t := token.(type) {
+		case xml.StartElement:
+			switch t.Name.Local {
+			case "align":
+				value, err := d.readElementText(decoder, "align")
+				if err != nil {
+					return "", nil, nil, err
+				}
+				align = &PosAlign{Value: value}
+			case "posOffset":
+				value, err := d.readElementText(decoder, "posOffset")
+				if err != nil {
+					return "", nil, nil, err
+				}
+				offset = &PosOffset{Value: value}
+			default:
+				if err := d.skipElement(decoder, t.Name.Local); err != nil {
+					return "", nil, nil, err
+				}
+			}
+		case xml.EndElement:
+			if t.Name.Local == elementName {
+				return relativeFrom, align, offset, nil
+			}
+		}
+	}
+}
+
+// parseCNvGraphicFramePr 解析非可视图形框架属性
+func (d *Document) parseCNvGraphicFramePr(decoder *xml.Decoder) (*CNvGraphicFramePr, error) {
+	framePr := &CNvGraphicFramePr{}
+
+	for {
+		token, err := decoder.Token()
+		if err != nil {
+			return nil, WrapError("parse_cnv_graphic_frame_pr", err)
+		}
+
+		switch t := token.(type) {
+		case xml.StartElement:
+			if t.Name.Local == "graphicFrameLocks" {
+				framePr.GraphicFrameLocks = &GraphicFrameLocks{
+					Xmlns:          "http://schemas.openxmlformats.org/drawingml/2006/main",
+					NoChangeAspect: getAttributeValue(t.Attr, "noChangeAspect"),
+					NoCrop:         getAttributeValue(t.Attr, "noCrop"),
+					NoMove:         getAttributeValue(t.Attr, "noMove"),
+					NoResize:       getAttributeValue(t.Attr, "noResize"),
+					NoRot:          getAttributeValue(t.Attr, "noRot"),
+					NoSelect:       getAttributeValue(t.Attr, "noSelect"),
+				}
+			}
+			if err := d.skipElement(decoder, t.Name.Local); err != nil {
+				return nil, err
+			}
+		case xml.EndElement:
+			if t.Name.Local == "cNvGraphicFramePr" {
+				return framePr, nil
+			}
+		}
+	}
+}
+
+// parseWrapPolygonParent 解析紧密/穿透环绕元素的子元素（wp:wrapPolygon）
+func (d *Document) parseWrapPolygonParent(decoder *xml.Decoder, elementName string) (*WrapPolygon, error) {
+	var polygon *WrapPolygon
+
+	for {
+		token, err := decoder.Token()
+		if err != nil {
+			return nil, WrapError("parse_wrap_polygon", err)
+		}
+
+		switch t := token.(type) {
+		case xml.StartElement:
+			switch t.Name.Local {
+			case "wrapPolygon":
+				polygon = &WrapPolygon{}
+			case "start":
+				if polygon != nil {
+					polygon.Start = &PolygonStart{X: getAttributeValue(t.Attr, "x"), Y: getAttributeValue(t.Attr, "y")}
+				}
+				if err := d.skipElement(decoder, t.Name.Local); err != nil {
+					return nil, err
+				}
+			case "lineTo":
+				if polygon != nil {
+					polygon.LineTo = append(polygon.LineTo, PolygonLineTo{X: getAttributeValue(t.Attr, "x"), Y: getAttributeValue(t.Attr, "y")})
+				}
+				if err := d.skipElement(decoder, t.Name.Local); err != nil {
+					return nil, err
+				}
+			default:
+				if err := d.skipElement(decoder, t.Name.Local); err != nil {
+					return nil, err
+				}
+			}
+		case xml.EndElement:
+			if t.Name.Local == elementName {
+				return polygon, nil
+			}
+		}
+	}
+}
+
+// parseWrapTopAndBottomChildren 解析上下环绕元素的子元素
+func (d *Document) parseWrapTopAndBottomChildren(decoder *xml.Decoder, wrap *WrapTopAndBottom) error {
+	for {
+		token, err := decoder.Token()
+		if err != nil {
+			return WrapError("parse_wrap_top_and_bottom", err)
+		}
+
+		switch t := token.(type) {
+		case xml.StartElement:
+			if t.Name.Local == "effectExtent" {
+				wrap.EffectExtent = parseEffectExtentAttrs(t.Attr)
+			}
+			if err := d.skipElement(decoder, t.Name.Local); err != nil {
+				return err
+			}
+		case xml.EndElement:
+			if t.Name.Local == "wrapTopAndBottom" {
+				return nil
 			}
 		}
 	}
@@ -4254,12 +4465,11 @@ func (d *Document) parseNvPicPr(decoder *xml.Decoder, startElement xml.StartElem
 					return nil, err
 				}
 			case "cNvPicPr":
-				cNvPicPr := &CNvPicPr{}
-				// 解析picLocks如果存在
-				nvPicPr.CNvPicPr = cNvPicPr
-				if err := d.skipElement(decoder, t.Name.Local); err != nil {
+				cNvPicPr, err := d.parseCNvPicPr(decoder)
+				if err != nil {
 					return nil, err
 				}
+				nvPicPr.CNvPicPr = cNvPicPr
 			default:
 				if err := d.skipElement(decoder, t.Name.Local); err != nil {
 					return nil, err
@@ -4268,6 +4478,35 @@ func (d *Document) parseNvPicPr(decoder *xml.Decoder, startElement xml.StartElem
 		case xml.EndElement:
 			if t.Name.Local == "nvPicPr" {
 				return nvPicPr, nil
+			}
+		}
+	}
+}
+
+// parseCNvPicPr 解析非可视图片绘图属性（含 a:picLocks）
+func (d *Document) parseCNvPicPr(decoder *xml.Decoder) (*CNvPicPr, error) {
+	cNvPicPr := &CNvPicPr{}
+
+	for {
+		token, err := decoder.Token()
+		if err != nil {
+			return nil, WrapError("parse_cnv_pic_pr", err)
+		}
+
+		switch t := token.(type) {
+		case xml.StartElement:
+			if t.Name.Local == "picLocks" {
+				cNvPicPr.PicLocks = &PicLocks{
+					NoChangeAspect:     getAttributeValue(t.Attr, "noChangeAspect"),
+					NoChangeArrowheads: getAttributeValue(t.Attr, "noChangeArrowheads"),
+				}
+			}
+			if err := d.skipElement(decoder, t.Name.Local); err != nil {
+				return nil, err
+			}
+		case xml.EndElement:
+			if t.Name.Local == "cNvPicPr" {
+				return cNvPicPr, nil
 			}
 		}
 	}
